@@ -252,6 +252,9 @@ func applyProfile(t *Tape, property string, sc *Scenario, cfg *Config) {
 		sc.Events = append(sc.Events, UserEvent{Kind: "hostile-script", AtStep: 1 + t.Next(len(sc.Steps)), AtState: stepStates[t.Next(len(stepStates))], Arg: t.Next(1000)},
 			UserEvent{Kind: "restore-script", After: "hostile-script", Arg: 5 + t.Next(40)})
 	}
+	if strings.HasSuffix(sc.Family, "bluegreen") && (property == "C05" || property == "C06" || property == "C18") {
+		sc.HPA = t.Next(2) == 1
+	}
 	faulty := false
 	switch property {
 	case "C06", "C18", "C19":
